@@ -136,7 +136,7 @@ def run_budgeted(fn, budget=DEFAULT_BUDGET, cpu_seconds=20.0):
     return st, v, _cnt[0]
 
 
-GUARD_CPU_SECONDS = 1.5
+GUARD_CPU_SECONDS = 0.4
 
 
 def run_guarded(fn, cpu_seconds=GUARD_CPU_SECONDS):
